@@ -93,6 +93,11 @@ static std::string kindOfFd(int fd)
 static void record(Event e)
 {
   std::lock_guard<std::mutex> g(g_evMutex);
+  if (e.kind == 'A' && e.data.size() > (8u << 20))
+  { // boundary cases with ~100 MiB values are implementation-only: their traces are never printed, do not keep the bytes
+    e.data.clear();
+    e.file += "-huge";
+  }
   if (e.kind == 'A' && !g_events.empty() && g_events.back().kind == 'A' && g_events.back().file == e.file)
   {
     g_events.back().data += e.data;
